@@ -50,7 +50,7 @@ class JointDegree(ABC):
                     j = random.randrange(0, len(jds))
                     t = list(jds[j])
                     t[i] += 1
-                    jds[j] = t
+                    jds[j] = tuple(t)
         return jds
 
     def sample_jds_from_jdd(self, N: int) -> list:
